@@ -135,6 +135,32 @@ class Env:
             pass
         return r
 
+    def include_many(self, fmts, data):
+        """one program that includes the SAME file once per entry of fmts, in that order: v0, v1, ..."""
+        self.n += 1
+        p = os.path.join(self.dir, "d%d.dat" % self.n)
+        with open(p, "wb") as f:
+            f.write(data)
+        outs = []
+        # every include on its own first (reference for the combined program), each in a fresh evaluation
+        for fmt in fmts:
+            outs.append(self.probe.safe_call({"op": "eval", "text": 'let v = include %s "%s";' % (fmt, p), "reuse_max": 300, "cwd": self.dir}))
+        text = "".join('let v%d = include %s "%s";\n' % (i, fmt, p) for i, fmt in enumerate(fmts))
+        # the failing includes are left out of the combined program, which must then succeed
+        good = [i for i, o in enumerate(outs) if o.get("ok")]
+        text_good = "".join('let v%d = include %s "%s";\n' % (i, fmts[i], p) for i in good)
+        comb = self.probe.safe_call({"op": "eval", "text": text_good, "reuse_max": 300, "cwd": self.dir}) if good else None
+        # and each failing include after all the good ones must still fail
+        after = {}
+        for i, o in enumerate(outs):
+            if not o.get("ok") and "err" in o and good:
+                after[i] = self.probe.safe_call({"op": "eval", "text": text_good + 'let bad = include %s "%s";\n' % (fmts[i], p), "reuse_max": 300, "cwd": self.dir})
+        try:
+            os.remove(p)
+        except OSError:
+            pass
+        return outs, good, comb, after
+
     def include_used(self, fmt, data, use):
         self.n += 1
         p = os.path.join(self.dir, "d%d.dat" % self.n)
@@ -183,6 +209,38 @@ def judge_use(env, fmt, data, dec, res, witness):
         res.violation(["included-value-rejected-when-used-as-its-type", where, cls(r.get("err", ""))[:60]], dict(witness, use=use, where=where), {"err": r.get("err", "")[:300]})
         return
     res.count("used-as-its-type:%s:%s" % (fmt, tn))
+
+
+ALL_TYPES = ["str", "b64", "b64urlsafe", "json", "yaml", "toml"]
+
+
+def judge_many(env, r, data, res):
+    """the same file included under several types in one program: every include yields what it yields alone"""
+    fmts = r.sample(ALL_TYPES, r.randint(2, 4))
+    if r.random() < 0.3:
+        fmts.append(fmts[0])
+    outs, good, comb, after = env.include_many(fmts, data)
+    if any(("panic" in o or "crash" in o or "hang" in o or "inconclusive" in o) for o in outs + ([comb] if comb else []) + list(after.values())):
+        res.count("crash-left-to-C04")
+        return
+    witness = {"formats": fmts, "file_b64": core.b64e(data)}
+    res.case(("many", tuple(fmts), data), nontrivial=True)
+    if comb is not None:
+        if not comb.get("ok"):
+            res.violation(["same-file-several-types", "combined-program-fails"], witness, {"err": comb.get("err", "")[:200]})
+            return
+        vals = dict((k, v) for k, v in comb["val"]["T"])
+        for i in good:
+            alone = dict((k, v) for k, v in outs[i]["val"]["T"]).get("v")
+            if vals.get("v%d" % i) != alone:
+                res.violation(["same-file-several-types", "value-differs-from-alone", fmts[i], "after:" + (fmts[good[good.index(i) - 1]] if good.index(i) else "-")], witness,
+                              {"alone": repr(alone)[:120], "combined": repr(vals.get("v%d" % i))[:120]})
+                return
+    for i, o in after.items():
+        if o.get("ok"):
+            res.violation(["same-file-several-types", "malformed-accepted-after-other-include", fmts[i]], witness, {"alone_err": outs[i].get("err", "")[:160]})
+            return
+    res.count("same-file-several-types-agree")
 
 
 def judge_doc(env, fmt, text, res, label):
@@ -280,6 +338,9 @@ def task(args):
                     judge_doc(env, fmt, docgen.corrupt(r, text), res, "corrupted")
                 if c % 2 == 0:
                     judge_doc(env, fmt, docgen.corrupt_bytes(r, text.encode("utf-8", "surrogatepass")), res, "invalid-utf8")
+                if c % 5 == 0:
+                    judge_many(env, r, text.encode("utf-8", "surrogatepass"), res)
+                    judge_many(env, r, docgen.corrupt(r, text).encode("utf-8", "surrogatepass"), res)
                 if c < 1 and idx < 3:
                     res.sample({"format": fmt, "text": text[:300]})
         elif kind == "raw":
@@ -305,6 +366,8 @@ def task(args):
                     as_text = data.decode("utf-8")
                 except UnicodeDecodeError:
                     as_text = None
+                if c % 3 == 0:
+                    judge_many(env, r, data, res)
                 for fmt in ("str", "b64", "b64urlsafe"):
                     res.case((fmt, data), nontrivial=(as_text is None or any(b > 127 for b in data)))
                     rr = env.include(fmt, data)
@@ -374,7 +437,15 @@ def check_witness(w):
     env = Env("r")
     try:
         data = core.b64d(w["file_b64"])
-        fmt = w["format"]
+        fmt = w.get("format")
+        if w.get("formats"):
+            import random
+            class _R:
+                def sample(self, a, n): return list(w["formats"])
+                def randint(self, a, b): return len(w["formats"])
+                def random(self): return 1.0
+            judge_many(env, _R(), data, res)
+            return res
         if w.get("use"):
             # the value used according to its type in a built file
             r = env.include_used(fmt, data, w["use"])
